@@ -81,13 +81,197 @@ def f_nearpar(x):
     return [x[0] + x[1] - 0.2, x[0] + 1.001 * x[1] + 0.05 * x[2] - 0.2]
 
 
+def f_hemi(x):
+    # upper unit hemisphere as a graph: not finite everywhere (NaN outside the unit cylinder)
+    q = 0.0
+    for i in range(len(x) - 1):
+        q += x[i] * x[i]
+    a = 1.0 - q
+    return [x[-1] - math.sqrt(a)] if a >= 0.0 else [float("nan")]
+
+
+def f_logg(x):
+    # graph of 0.5*log(1 + x0): NaN for x0 < -1, +inf at x0 = -1
+    a = 1.0 + x[0]
+    if a < 0.0 or a != a:
+        return [float("nan")]
+    if a == 0.0:
+        return [float("inf")]
+    return [x[-1] - 0.5 * math.log(a)]
+
+
+# constraints whose function is NOT finite on the whole ambient box (domain edge inside the bounds)
+PARTIAL = ("hemi", "logg")
+
 CONS = {
+    "hemi": (1, f_hemi), "logg": (1, f_logg),
     "sphere": (1, f_sphere), "spherenj": (1, f_sphere), "torus": (1, f_torus), "plane": (1, f_plane),
     "spherepl": (2, f_spherepl), "isect": (2, f_spherepl), "quartic": (1, f_quartic), "quarticg": (1, f_quarticg), "nearpar": (2, f_nearpar),
 }
 # the double-root quartic has a rank-0 Jacobian on its zero set: no tangent space, Atlas chart creation throws by design
 # "isect" is the library's own ConstraintIntersection{sphere, plane}: the same manifold as the hand-stacked "spherepl"
-ATLAS_OK = ["sphere", "spherenj", "torus", "plane", "spherepl", "isect", "quarticg", "nearpar"]
+ATLAS_OK = ["hemi", "logg", "sphere", "spherenj", "torus", "plane", "spherepl", "isect", "quarticg", "nearpar"]
+
+
+# ---- geometry helpers of the generators (Python only; nothing here is an oracle) ----
+def num_jac(con, x, h=1e-6):
+    f = CONS[con][1]
+    m, n = CONS[con][0], len(x)
+    J = [[0.0] * n for _ in range(m)]
+    for i in range(n):
+        xp, xm = list(x), list(x)
+        xp[i] += h
+        xm[i] -= h
+        fp, fm = f(xp), f(xm)
+        for a in range(m):
+            J[a][i] = (fp[a] - fm[a]) / (2 * h)
+    return J
+
+
+def orth_normals(con, x):
+    """orthonormal basis of the normal space at x (Gram-Schmidt on the rows of the numerical Jacobian)"""
+    out = []
+    for row in num_jac(con, x):
+        v = list(row)
+        if not all(math.isfinite(c) for c in v):
+            return []
+        for b in out:
+            d = sum(p * q for p, q in zip(v, b))
+            v = [p - d * q for p, q in zip(v, b)]
+        nv = math.sqrt(sum(c * c for c in v))
+        if nv > 1e-9:
+            out.append([c / nv for c in v])
+    return out
+
+
+def tangential(normals, v):
+    for b in normals:
+        d = sum(p * q for p, q in zip(v, b))
+        v = [p - d * q for p, q in zip(v, b)]
+    return v
+
+
+def py_project(con, x, iters=60):
+    """minimum-norm Newton projection (numerical Jacobian); None if it does not converge"""
+    f = CONS[con][1]
+    m = CONS[con][0]
+    x = list(x)
+    for _ in range(iters):
+        fx = f(x)
+        if not all(math.isfinite(v) for v in fx):
+            return None
+        if sum(v * v for v in fx) < 1e-31:
+            return x
+        J = num_jac(con, x)
+        if not all(math.isfinite(c) for row in J for c in row):
+            return None
+        if m == 1:
+            g = sum(c * c for c in J[0])
+            if g < 1e-18:
+                return None
+            y = [fx[0] / g]
+        else:
+            a = sum(c * c for c in J[0])
+            b = sum(p * q for p, q in zip(J[0], J[1]))
+            d = sum(c * c for c in J[1])
+            det = a * d - b * b
+            if abs(det) < 1e-18:
+                return None
+            y = [(d * fx[0] - b * fx[1]) / det, (a * fx[1] - b * fx[0]) / det]
+        x = [x[i] - sum(J[k][i] * y[k] for k in range(m)) for i in range(len(x))]
+        if not all(abs(v) < 1e6 for v in x):
+            return None
+    return None
+
+
+def normal_targets(cfg, tcfg, pts, r):
+    """pairs (p, q) of manifold points with q - p (nearly) along the manifold NORMAL at p: the antipode on a sphere, the other
+    side of a torus tube, ... - where the chart coordinates of q in p's tangent chart are (nearly) those of p itself although q
+    is far away - plus targets whose tangential offset is just below / above delta.  tcfg: the configuration with the tightest
+    tolerance of the script (the points must stay on the manifold under every tolerance the script sets)."""
+    con, delta = cfg["con"], cfg["delta"]
+    out = []
+    cand = list(pts)
+    r.shuffle(cand)
+
+    def good(q):
+        return q is not None and satisfied(tcfg, q) and all(cfg["lo"] <= v <= cfg["hi"] for v in q)
+
+    for p in cand[:6]:
+        N = orth_normals(con, p)
+        if not N:
+            continue
+        dirs = list(N)
+        if len(N) == 2:
+            for sg in (1.0, -1.0):
+                v = [a + sg * b for a, b in zip(N[0], N[1])]
+                nv = math.sqrt(sum(c * c for c in v))
+                dirs.append([c / nv for c in v])
+        best = None
+        for d in dirs:
+            for sc in (-2.6, -2.0, -1.6, -1.2, -0.8, -0.5, 0.5, 0.8, 1.2, 2.0):
+                q = py_project(con, [a + sc * b for a, b in zip(p, d)])
+                if not good(q):
+                    continue
+                v = [a - b for a, b in zip(q, p)]
+                dq = math.sqrt(sum(c * c for c in v))
+                if dq <= max(3 * delta, 0.2):
+                    continue
+                tv = tangential(N, v)
+                ratio = math.sqrt(sum(c * c for c in tv)) / dq
+                if ratio < 0.02 and (best is None or ratio < best[0]):
+                    best = (ratio, q)
+        if best is None:
+            continue
+        q = best[1]
+        out.append((p, q))
+        # the same target moved tangentially (at q) by a little less / a little more than delta
+        Nq = orth_normals(con, q)
+        tdir = tangential(Nq, [r.uniform(-1, 1) for _ in p])
+        nt = math.sqrt(sum(c * c for c in tdir))
+        if nt > 1e-6:
+            for eps in (0.9 * delta, 1.7 * delta):
+                q2 = py_project(con, [a + eps * c / nt for a, c in zip(q, tdir)])
+                if good(q2):
+                    out.append((p, q2))
+        if len(out) >= 3:
+            break
+    return out[:3]
+
+
+def edge_points(r, cfg):
+    """start points at the edge of the domain of a constraint that is not finite everywhere: just inside (on / near the
+    manifold), and outside (function value NaN from the start)"""
+    n = cfg["n"]
+    pts = []
+    if cfg["con"] == "hemi":
+        for rho in (0.9, 0.99, 0.995, 0.999, 0.9999, 0.995, 0.999):
+            d = [r.uniform(-1, 1) for _ in range(n - 1)]
+            nd = math.sqrt(sum(c * c for c in d)) or 1.0
+            base = [rho * c / nd for c in d]
+            pts.append(base + [math.sqrt(max(0.0, 1.0 - rho * rho))])
+            # a close neighbour along the rim (pairs whose chord runs just below the dome)
+            d2 = [c + 0.3 * r.uniform(-1, 1) for c in d]
+            nd2 = math.sqrt(sum(c * c for c in d2)) or 1.0
+            pts.append([rho * c / nd2 for c in d2] + [math.sqrt(max(0.0, 1.0 - rho * rho))])
+        pts.append([1.2] + [0.0] * (n - 2) + [0.3])                      # outside the cylinder: NaN
+        pts.append([0.8, 0.8] + [0.0] * (n - 3) + [0.1])                 # outside
+        pts.append([0.999] + [0.0] * (n - 2) + [-0.4])                   # inside, far below the dome: the Newton step leaves the domain
+    elif cfg["con"] == "logg":
+        for x0 in (-0.9, -0.95, -0.98, -0.97, -0.5):
+            pts.append([x0] + [r.uniform(-0.5, 0.5) for _ in range(n - 2)] + [0.5 * math.log(1.0 + x0)])
+        pts.append([-1.5] + [0.0] * (n - 1))                             # outside the domain: NaN
+        pts.append([-0.99] + [0.0] * (n - 2) + [-1.9])
+        pts.append([-0.9] + [0.0] * (n - 2) + [-1.99])                   # Newton step overshoots x0 < -1
+    return pts
+
+
+def near_edge(cfg, x):
+    if cfg["con"] == "hemi":
+        return _sumsq(x) - x[-1] * x[-1] >= 0.98
+    if cfg["con"] == "logg":
+        return x[0] <= -0.88
+    return False
 
 
 def resid_sq(con, x):
@@ -117,12 +301,28 @@ def st(x):
     return " ".join(f2bits(v) for v in x)
 
 
+_SI_REPAIRED = []
+
+
+def si_repaired():
+    """does the tree under test carry the F460 repair of TangentBundleSpaceInformation::checkMotion (a failed projection of
+    lastValid.first falls back to s1 with fraction 0)?  The model follows the code it is run against (header key sifix)."""
+    if not _SI_REPAIRED:
+        try:
+            src = open(os.path.join(core.REPO, "src/ompl/base/ConstrainedSpaceInformation.h")).read()
+            body = src[src.index("class TangentBundleSpaceInformation"):]
+            _SI_REPAIRED.append("lastValid.second = 0" in body)
+        except (OSError, ValueError):
+            _SI_REPAIRED.append(False)
+    return _SI_REPAIRED[0]
+
+
 def header(cfg, driver=False):
     base = "n=%d delta=%s lambda=%s tol=%s maxit=%d lo=%s hi=%s" % (
         cfg["n"], f2bits(cfg["delta"]), f2bits(cfg["lam"]), f2bits(cfg["tol"]), cfg["maxit"], f2bits(cfg["lo"]), f2bits(cfg["hi"]))
     if driver:
         m = CONS[cfg["con"]][0]
-        return "constrained m=%d k=%d tbfix=1 %s %s" % (m, cfg["n"] - m, base, cfg.get("aparams", ""))
+        return "constrained m=%d k=%d tbfix=1 sifix=%d %s %s" % (m, cfg["n"] - m, 1 if si_repaired() else 0, base, cfg.get("aparams", ""))
     extra = "".join(" %s=%s" % (k, v) for k, v in sorted((cfg.get("aextra") or {}).items())) if cfg["space"] != "proj" else ""
     base = base + extra
     obs = "none" if cfg["obs"] is None else "%d:%s:%s" % (cfg["obs"][0], f2bits(cfg["obs"][1]), f2bits(cfg["obs"][2]))
@@ -332,6 +532,8 @@ def pass1_script(cfg, r, k):
         lines.append("proj " + st(rand_point(r, cfg)))
     for p in singular_points(r, cfg):
         lines.append("proj " + st(p))
+    for p in edge_points(r, cfg):
+        lines.append("proj " + st(p))
     return lines
 
 
@@ -398,6 +600,18 @@ def main_script(cfg, r, pts, tier):
             q0[1] = dd
             if cfg["lo"] <= dd <= cfg["hi"]:
                 pairs.append((p0, q0))
+    # degenerate geometry: the target lies (nearly) along the manifold normal at `from` (antipode, other side of a tube), so its
+    # chart coordinates in from's tangent chart coincide with from's although it is far away
+    npairs = normal_targets(cfg, dict(cfg, tol=tol_tight(cfg)), pts, r.fork("normal"))
+    # constraints that are not finite everywhere: pairs of manifold points next to the edge of the domain
+    edge = [x for x in pts if near_edge(cfg, x)]
+    epairs = []
+    for _ in range(min(3, len(edge))):
+        a = r.choice(edge)
+        c = [x for x in edge if 0 < dist(a, x) <= 1.0]
+        epairs.append((a, r.choice(c) if c else pick()))
+    special = npairs + epairs
+    pairs = pairs[:5] + special + pairs[5:]
     for a, b in pairs:
         lines.append("geo %d %s %s" % (r.below(2), st(a), st(b)))
     # a start state off the manifold (outside the property's quantifier; Atlas / TangentBundle must refuse it untouched)
@@ -442,6 +656,14 @@ def main_script(cfg, r, pts, tier):
     for a, b in pairs[:3 * q]:
         # the caller-owned output object aliased with an input
         lines.append("interpo %d %s %s %s" % (r.range(1, 2), st(a), st(b), f2bits(r.choice(ts))))
+    # the glue planners go through (ConstrainedSpaceInformation.h): getMotionStates, SpaceInformation::checkMotion with lastValid
+    # (TangentBundleSpaceInformation post-processes it), ConstrainedValidStateSampler with several attempts_ values
+    for j, (a, b) in enumerate(pairs[:5 + len(special)]):
+        lines.append("gms %d %s %s" % (j % 2, st(a), st(b)))
+        lines.append("sicm %d %s %s" % (0 if j % 5 == 4 else 1, st(a), st(b)))
+    for att in (r.choice([0, 1]), r.choice([2, 3]), 100):
+        lines.append("vs %d u" % att)
+        lines.append("vs %d n %s %s" % (att, st(pick()), f2bits(r.choice([cfg["delta"], 0.3, 3.0]))))
     fixed, core = lines[:3], lines[3:]
     r.shuffle(core)
     # histories: delta / lambda changed after setup and first use, the atlas cleared and re-used
@@ -538,7 +760,7 @@ def oracle_line(cfg, op, out):
         except (OverflowError, ValueError, ZeroDivisionError):
             continue
         for a_, b_ in zip(fv, want):
-            if math.isfinite(b_) and not abs(a_ - b_) <= 1e-9 * max(1.0, abs(b_)):
+            if (math.isfinite(b_) and not abs(a_ - b_) <= 1e-9 * max(1.0, abs(b_))) or ((a_ != a_) != (b_ != b_)):
                 fails.append(("function", "value-mismatch", "Constraint::function returned %r where the constraint's definition gives %r" % (fv, want)))
                 break
         if fails:
@@ -606,7 +828,54 @@ def oracle_line(cfg, op, out):
         idx = int(head[0][4:])
         if not (0 <= idx < k):
             fails.append(("gi", "index", "geodesicInterpolate returned a pointer outside the list"))
-    elif t[0] in ("cm1", "cm2"):
+    elif t[0] == "gms":
+        k = int(head[1][2:])
+        sts = [head[2 + j * n:2 + (j + 1) * n] for j in range(k)]
+        s1b, s2b = t[2:2 + n], t[2 + n:2 + 2 * n]
+        gs = [e for e in evs if e[0] == "G"]
+        ok = bool(gs) and gs[0][2] == "1"
+        if head[0] != "ret=%d" % k:
+            fails.append(("gms", "count", "getMotionStates returned %s but the vector holds %d states" % (head[0], k)))
+        if k == 0 and t[1] == "1" and space != "tb":
+            fails.append(("gms", "empty", "getMotionStates(endpoints=true) returned no state at all"))
+        from_ok = satisfied(cfg, fl(s1b))
+        for j, xb in enumerate(sts):
+            x = fl(xb)
+            if satisfied(cfg, x):
+                continue
+            if xb == s2b and space != "tb":
+                continue                      # the caller's own s2, appended verbatim after a successful traversal
+            if xb == s1b and not from_ok:
+                continue                      # outside the quantifier: the motion starts off the manifold
+            if from_ok:
+                fails.append(("gms", "off-manifold", "getMotionStates state %d of %d has residual %.3g > tolerance %.3g"
+                              % (j, k, math.sqrt(resid_sq(cfg["con"], x)), cfg["tol"])))
+                break
+        if space in ("proj", "atlas"):
+            for j in range(k - 1):
+                d = dist(fl(sts[j]), fl(sts[j + 1]))
+                if not d <= lamdel * (1 + REL) and not (j + 2 == k and sts[j + 1] == s2b and not satisfied(cfg, fl(s2b))):
+                    fails.append(("gms", "step-bound", "motion states %d,%d are %.17g apart > lambda*delta = %.17g" % (j, j + 1, d, lamdel)))
+                    break
+            if t[1] == "1" and ok and (not sts or sts[-1] != s2b):
+                fails.append(("gms", "endpoint", "the traversal succeeded, endpoints were asked for, but the last state is not s2"))
+        if space == "tb":
+            for j, xb in enumerate(sts):
+                if not valid_py(cfg, fl(xb)):
+                    fails.append(("gms", "invalid-state", "TangentBundle getMotionStates state %d of %d is invalid (project() validates)" % (j, k)))
+                    break
+    elif t[0] == "vs":
+        if head[0] == "ret=1":
+            x = fl(head[2:2 + n])
+            if not satisfied(cfg, x):
+                fails.append(("vs", "off-manifold", "the valid-state sampler reported success on a state with residual %.3g > tolerance %.3g"
+                              % (math.sqrt(resid_sq(cfg["con"], x)), cfg["tol"])))
+            if not valid_py(cfg, x):
+                fails.append(("vs", "invalid", "the valid-state sampler reported success on an invalid state"))
+        nv = len([e for e in evs if e[0] == "V"])
+        if nv > max(1, int(t[1])):
+            fails.append(("vs", "attempts", "%d draws with attempts_ = %s" % (nv, t[1])))
+    elif t[0] in ("cm1", "cm2", "sicm"):
         v = head[0] == "v=1"
         off = 1 if t[0] == "cm1" else 2
         s2 = fl(t[off + n:off + 2 * n])
@@ -627,7 +896,7 @@ def oracle_line(cfg, op, out):
                 last_only = bad_idx == [len(gl[0][4]) - 1] and len(gl[0][4]) >= 2
                 fails.append(("cm", "tb-last-traversal-state-unvalidated" if (space == "tb" and last_only) else "traversal-state-invalid",
                               "checkMotion returned true although state(s) %s of its own %d-state traversal are invalid" % (bad_idx[:4], len(gl[0][4]))))
-        if t[0] == "cm2":
+        if t[0] in ("cm2", "sicm"):
             i = head.index("first=")
             first = fl(head[i + 1:i + 1 + n])
             second = head[i + 1 + n][7:]
@@ -636,8 +905,10 @@ def oracle_line(cfg, op, out):
                 if not (0.0 <= f <= 1.0):
                     fails.append(("cm", "fraction-range", "lastValid.second = %r outside [0,1]" % f))
             touched = any(x != SENT_STATE for x in first)
-            if touched and space in ("proj", "atlas") and satisfied(cfg, fl(t[off:off + n])) and not satisfied(cfg, first):
-                fails.append(("cm", "lastvalid-off-manifold", "lastValid.first has residual %.3g > tolerance" % math.sqrt(resid_sq(cfg["con"], first))))
+            if touched and (space in ("proj", "atlas") or t[0] == "sicm") and satisfied(cfg, fl(t[off:off + n])) and not satisfied(cfg, first):
+                psis = [e for e in evs if e[0] == "PSI"]
+                tbfail = space == "tb" and t[0] == "sicm" and psis and psis[-1][3] == "0" and head[i + 1:i + 1 + n] == psis[-1][4]
+                fails.append(("cm", "tb-lastvalid-failed-projection" if tbfail else "lastvalid-off-manifold", "lastValid.first has residual %.3g > tolerance" % math.sqrt(resid_sq(cfg["con"], first))))
             if v and (touched or second != SENT_FRAC_BITS):
                 fails.append(("cm", "lastvalid-on-success", "lastValid written although the motion is valid"))
             if not v and second == SENT_FRAC_BITS:
@@ -673,7 +944,7 @@ def driver_lines(cfg, script, out):
         # byte budget of one driver script (the compiled model parses ~0.7 MB/s): single-projection replays beyond 2 MB and
         # any replay beyond 6 MB are skipped and counted (long wandering geodesics at delta=0.01, lambda=10 are ~0.5 MB each)
         lim = 2e6 if tag[1] == "project" else 6e6
-        if size[0] + len(line) > lim and tag[1] not in ("gi", "cm1", "sample", "sat", "set"):
+        if size[0] + len(line) > lim and tag[1] not in ("gi", "cm1", "sample", "sat", "set", "vs", "gms"):
             skipped[0] += 1
             return
         size[0] += len(line)
@@ -755,7 +1026,33 @@ def driver_lines(cfg, script, out):
                 add("cm1 none", "%s (no isValid(s2) call recorded first)" % head[0], (li, "cm1"))
             if proj:
                 add("cm1p %s %s" % (" ".join(t[1:1 + 2 * n]), fjv), "%s left=0 miss=0" % head[0], (li, "cm1p"))
-        elif t[0] == "cm2":
+        elif t[0] == "gms":
+            k = int(head[1][2:])
+            exp = " ".join(("n=%d %s" % (k, " ".join(head[2:2 + k * n]))).split())
+            gs = [e for e in evs if e[0] == "G"]
+            if cfg["space"] == "tb":
+                add("tgms %s %s" % (" ".join(t[2:2 + 2 * n]), " ".join(ev_tokens(evs, GEO_KINDS))), exp + " left=0 miss=0", (li, "tgms"))
+            elif len(gs) == 1:
+                g = gs[0]
+                add("gms %s %s %s %d %s" % (t[1], " ".join(t[2:2 + 2 * n]), g[2], len(g[4]), " ".join(" ".join(x) for x in g[4])), exp, (li, "gms"))
+        elif t[0] == "vs":
+            nv = len([e for e in evs if e[0] == "V"])
+            add("vs %s %s" % (t[1], " ".join(ev_tokens(evs, ("V", "S")))),
+                "%s s= %s draws=%d left=0 miss=0" % (head[0], " ".join(head[2:2 + n]), nv), (li, "vs"))
+        elif t[0] == "sicm" and cfg["space"] == "tb":
+            gs = [e for e in evs if e[0] == "G"]
+            i = head.index("first=")
+            first = head[i + 1:i + 1 + n]
+            second = head[i + 1 + n][7:]
+            cf = "none" if all(bits2f(b) == SENT_STATE for b in first) else " ".join(first)
+            cs = "none" if second == SENT_FRAC_BITS else second
+            if gs:
+                g = gs[0]
+                post = evs[evs.index(g) + 1:]
+                add("tsicm %s %s %s %d %s %s" % (t[1], " ".join(t[2:2 + 2 * n]), g[2], len(g[4]), " ".join(" ".join(x) for x in g[4]),
+                                                " ".join(ev_tokens(post, GEO_KINDS))),
+                    "%s first= %s second=%s left=0 miss=0" % (head[0], cf, cs), (li, "tsicm"))
+        elif t[0] in ("cm2", "sicm"):
             ss = [e for e in evs if e[0] == "S"]
             gs = [e for e in evs if e[0] == "G"]
             i = head.index("first=")
@@ -773,7 +1070,7 @@ def driver_lines(cfg, script, out):
                 valid = pv[0][2] if pv else "0"
                 add("cm2 %s %s %s %s %s %d %s" % (t[1], " ".join(t[2:2 + 2 * n]), sat, valid, g[2], len(g[4]), " ".join(" ".join(x) for x in g[4])),
                     exp, (li, "cm2"))
-            if proj:
+            if proj and t[0] == "cm2":
                 add("cm2p %s %s %s" % (t[1], " ".join(t[2:2 + 2 * n]), fjv), exp + " left=0 miss=0", (li, "cm2p"))
     if skipped[0]:
         T.append((-1, "skipped:%d" % skipped[0]))
@@ -1138,7 +1435,10 @@ def account(ck, cfg, res):
             nontrivial = True
         elif t[0] == "interp":
             nontrivial = True
-        elif t[0] in ("cm1", "cm2") and head:
+        elif t[0] in ("gms", "vs") and head:
+            ck.count("%s:%s:%s" % (t[0], cfg["space"], head[0] if t[0] == "vs" else ("n>=3" if int(head[1][2:]) >= 3 else "n<3")))
+            nontrivial = True
+        elif t[0] in ("cm1", "cm2", "sicm") and head and head[0].startswith("v="):
             ck.count("%s:%s" % (t[0], head[0]))
             off = 1 if t[0] == "cm1" else 2
             s2 = fl(t[off + cfg["n"]:off + 2 * cfg["n"]])
@@ -1303,7 +1603,7 @@ def run(ck):
         f15_stats(ck, cfg, res)
         ck.count("scripts:corpus")
         bad += judge(ck, hbin, cfg, res, tier)
-    ncfg = 48 if tier == "quick" else 240
+    ncfg = 54 if tier == "quick" else 270
     cfgs = gen_configs(ck.rng.fork("configs"), ncfg, tier)
     # planners on a subset (delta >= 0.05: a 0.01 atlas needs far more evaluations than the budget allows)
     pk = 0
